@@ -254,7 +254,6 @@ def discarded_value_rule(ctx, rid: str, floor: int = 40):
 
 # (module rel suffix, function, stored attribute) -> reason: stores into another object's private field that are by design not on a fresh object
 FOREIGN_STORE_EXEMPT = {
-    ('ops/clifford_gate.py', '_act_on_', '_state'): 'the simulation state handed to _act_on_ is the mutable object the protocol is asked to update',
     ('value/abc_alt.py', '__new__', '_abstract_alternatives_'): 'a function object created by wrap_scope() in the same call',
 }
 
@@ -959,9 +958,15 @@ def act_on_routes_qubits_rule(ctx, rid: str, floor: int = 3):
             memo[nm] = r
             return r
         updates = []
+        # handles of the state: the parameter itself and locals that are attribute chains of it (tableau = sim_state.tableau)
+        handles = {st}
+        for nm, es in defs.items():
+            if es and all(isinstance(e, ast.Attribute) and dotted(e) and dotted(e).split('.')[0] == st for e in es):
+                handles.add(nm)
         for s in ast.walk(fn):
             call = None
-            if isinstance(s, ast.Assign) and any(isinstance(t, (ast.Attribute, ast.Subscript)) and any(isinstance(x, ast.Name) and x.id == st for x in ast.walk(t)) for t in s.targets):
+            if isinstance(s, ast.Assign) and any(isinstance(t, (ast.Attribute, ast.Subscript)) and any(isinstance(x, ast.Name) and x.id in handles for x in ast.walk(t))
+                                                 for t0 in s.targets for t in (t0.elts if isinstance(t0, ast.Tuple) else [t0])):
                 updates.append(s)
                 continue
             if isinstance(s, ast.Expr) and isinstance(s.value, ast.Call):
@@ -972,7 +977,7 @@ def act_on_routes_qubits_rule(ctx, rid: str, floor: int = 3):
                                      or any(isinstance(a, ast.Name) and a.id == st for a in list(call.args) + [k.value for k in call.keywords])):
                 updates.append(s)
         for k, u in enumerate(updates, 1):
-            names = {x.id for x in ast.walk(u) if isinstance(x, ast.Name) and isinstance(x.ctx, ast.Load) and x.id not in (st, 'self') and (x.id in defs or x.id == qb)}
+            names = {x.id for x in ast.walk(u) if isinstance(x, ast.Name) and isinstance(x.ctx, ast.Load) and x.id not in handles and x.id != 'self' and (x.id in defs or x.id == qb)}
             if not names:
                 continue        # nothing local involved (a zero-qubit effect or pure delegation of self)
             bad = sorted(nm for nm in names if not dep_name(nm))
